@@ -228,6 +228,18 @@ func (p *Program) assumeGlobalFacts(e *Exec, fn *ssa.Function, h0 *Heap) {
 		}
 		so := u.sortOf(et)
 		val := app("select", h0.get(u.cellVar(so)), ref)
+		// the variable itself is never assigned after init: on a later heap (after a call that may write
+		// anything) it still holds the value it had at function entry
+		if e.globalEntryVal == nil {
+			e.globalEntryVal = map[string]string{}
+		}
+		if v0, ok := e.globalEntryVal[g.String()]; ok {
+			if v0 != val {
+				vc.assume(eq(val, v0))
+			}
+		} else {
+			e.globalEntryVal[g.String()] = val
+		}
 		switch gf.Kind {
 		case "nonnilslice":
 			if so != SSlice {
